@@ -55,8 +55,18 @@ def _q_split(st, sep, maxsplit=-1):
     return result
 
 
-def lenient_parts(line):
-    """-> ("ok", name, {NAME: scalar-or-list}, value) | ("reject",)"""
+def lenient_parts(line, placeholders=True):
+    """-> ("ok", name, {NAME: scalar-or-list}, value) | ("reject",)
+
+    placeholders=False is the same lenient split with the %XX mechanism switched off (what the split would be
+    without the defect); classifiers use it to confirm that the defect alone explains an observation."""
+    if not placeholders:
+        saved = globals()["placeholder_escape"], globals()["placeholder_unescape"]
+        try:
+            globals()["placeholder_escape"] = globals()["placeholder_unescape"] = lambda t: t
+            return lenient_parts(line, True)
+        finally:
+            globals()["placeholder_escape"], globals()["placeholder_unescape"] = saved
     st = placeholder_escape(line)
     name_split = value_split = None
     in_quotes = False
